@@ -132,7 +132,7 @@ func (w *c04World) warmRun(parentCache string, p int, touch bool) (ws.Outcome, s
 }
 
 func TestVerifC04(t *testing.T) {
-	res := vx.New("explicit-state BFS over histories of {toggle one of the workspace bits (target edit, dependency deprecation / purity / nilness facts, root and package staticcheck.conf, malformed conf), toggle a flag bit (-go, -tags, -checks, GOOS, thorough: -tests), touch all files} interleaved with runs of the real binary sharing one cache; a state is (point, canonical cache digest), merged when equal. Every warm run's problem set and exit status must equal the memoised cold run of the same point. Non-trivial = warm run that reused at least one cache entry of an earlier run at a different point.")
+	res := vx.New("explicit-state BFS over histories of {toggle one of the workspace bits (target edit, dependency deprecation / purity / nilness facts, a deprecation three import levels down that leaves every build id unchanged, root and package staticcheck.conf, malformed conf), toggle a flag bit (-go, -tags, -checks, GOOS), touch all files} interleaved with runs of the real binary sharing one cache; a state is (point, canonical cache digest), merged when equal. Every warm run's problem set and exit status must equal the memoised cold run of the same point. Non-trivial = warm run that reused at least one cache entry of an earlier run at a different point.")
 	defer res.Write()
 	bin := os.Getenv("VERIF_BIN_STATICCHECK")
 	if bin == "" {
@@ -171,8 +171,8 @@ func TestVerifC04(t *testing.T) {
 	// event menu
 	var bits []int
 	for i := 0; i < ws.NumBits; i++ {
-		if 1<<i == ws.Tests && !vx.Thorough() {
-			continue
+		if 1<<i == ws.Tests {
+			continue // see check.json: -tests is not toggled
 		}
 		bits = append(bits, i)
 	}
